@@ -407,6 +407,16 @@ def step (s : State) (toks : List String) : State × String :=
     | some n, some _ => if s.nconn = 0 && n > 0 then ({ s with nconn := n }, "ok") else (s, "bad-op")
     | _, _ => (s, "bad-op")
   | ["close"] => if s.nconn > 0 then ({ s with nconn := 0 }, "ok") else (s, "bad-op")
+  | ["finish", name, host, bits] =>
+    -- the last connection sends its final measures, the end marker and closes, while a reader
+    -- holds the result set: every measure is applied before `Listen` returns
+    match parseInt host, parseBits bits, s.mon with
+    | some h, some xs, some mn =>
+      if s.nconn = 0 then (s, "bad-op")
+      else
+        let m' := if isEnd name then mn.m else xs.foldl (fun m x => m.update (measure name x h)) mn.m
+        ({ s with mon := some { mn with m := m' }, nconn := 0 }, "ok")
+    | _, _, _ => (s, "bad-op")
   | ["send", c, name, bits, host] =>
     match c.toNat?, parseF bits, parseInt host, s.mon with
     | some c, some x, some h, some mn =>
